@@ -53,6 +53,8 @@ def items(tier, seed):
         out.append(dict(name=f"law-n{n}", kind="law", n=n, seed=seed))
     for n in ([1, 2, 3] if q else [1, 2, 3, 4]):
         out.append(dict(name=f"weights-n{n}", kind="weights", n=n, seed=seed))
+    for name, gs in (("td3_lap", [1, 3] if q else [1, 2, 3]), ("td7", [1]), ("ddqn_per", [1])):
+        out.append(dict(name=f"protocol-{name}", kind="protocol", routine=name, gradient_steps=gs, seed=seed))
     for n in range(5, 17 if q else 33):
         out.append(dict(name=f"law-long-n{n}", kind="law", n=n, long=True, seed=seed))
     out.append(dict(name="priority-functions", kind="prio", seed=seed))
@@ -519,6 +521,55 @@ def weights_item(item, col):
     col.sample(dict(kind="weights", n=n, alphabet=alph))
 
 
+def protocol_item(item, col):
+    """Training loops that feed TD errors back as priorities: update_priority writes to the batch sampled LAST, so every
+    update must directly follow the sample_batch whose TD errors it carries (sample, update, sample, update, ...), also
+    with several gradient steps per environment step."""
+    from vlib import drivers as D
+
+    name = item["routine"]
+    entry = "train_" + name
+    for g, script in itertools.product(item["gradient_steps"], ["cccccccc", "ccTccUcc"]):
+        cfg = dict(buffer_size=16, env_horizon=len(script) + 3, learning_starts=2, batch_size=2, seed=1 + item["seed"], net_seed=item["seed"], delay=2)
+        if g > 1:
+            cfg["gradient_steps"] = g
+        if name == "td7":
+            cfg["use_checkpoints"] = False
+        rb = D.new_buffer(name, cfg)
+        log = []
+        cls = type(rb)
+
+        class Rec(cls):
+            def sample_batch(self, *a, **k):
+                log.append("sample")
+                return cls.sample_batch(self, *a, **k)
+
+            def update_priority(self, *a, **k):
+                log.append("update")
+                return cls.update_priority(self, *a, **k)
+
+        rb.__class__ = Rec
+        run = D.run(name, script, replay_buffer=rb, **cfg)
+        col.tick(1, (entry, g, script))
+        if run.error is not None:
+            col.outcome("protocol_runs_aborted_by_env_guard:" + run.error)
+            continue
+        col.outcome("protocol_calls_observed", len(log))
+        if g > 1:
+            col.outcome("protocol_runs_with_several_gradient_steps_per_environment_step")
+        bad = None
+        for i, c in enumerate(log):
+            want = "sample" if i % 2 == 0 else "update"
+            if c != want:
+                bad = i
+                break
+        if bad is None and len(log) % 2 == 1:
+            bad = len(log)
+        if bad is not None:
+            col.violation(SIG.format(entry, "priority-update-does-not-follow-its-own-batch"), dict(routine=name, script=script, gradient_steps=g, calls=log[:24], first_bad_call=bad))
+    col.sample(dict(kind="sample/update protocol of a training loop", routine=name, gradient_steps=item["gradient_steps"]))
+
+
 def prio_item(item, col):
     import jax.numpy as jnp
 
@@ -581,6 +632,8 @@ def work(item, col):
         return law_item(item, col)
     if item["kind"] == "weights":
         return weights_item(item, col)
+    if item["kind"] == "protocol":
+        return protocol_item(item, col)
     if item["kind"] == "prio":
         return prio_item(item, col)
     cfg = item
